@@ -92,8 +92,8 @@ def scenarios(year, fine):
         yield ("pensioner", dict(ep=ep, rent=rent, wealth=wealth, priv=priv)), pensioner(year, ep, rent, wealth, priv)
     for w, ep in itertools.product(ws, [5.0, 15.0, 30.0, 45.0]):
         yield ("mixed", dict(w=w, ep=ep)), mixed(year, w, ep, 800.0)
-    sib = [0.0, 450.0, 800.0, 1000.0, 1100.0, 1250.0, 1500.0, 2200.0] if not fine else [float(x) for x in range(0, 2601, 100)]
-    for w, ws_, rent, kids in itertools.product(ws, sib, [500.0, 750.0, 1100.0], [1, 2]):
+    sib = [0.0, 450.0, 800.0, 1000.0, 1100.0, 1250.0, 1500.0, 2200.0] if not fine else [float(x) for x in range(0, 2601, 200)]
+    for w, ws_, rent, kids in itertools.product(W if fine else ws, sib, [500.0, 750.0, 1100.0], [1, 2]):
         yield ("two-adult-units", dict(w=w, w_sibling=ws_, rent=rent, kids=kids)), two_adult_units(year, w, ws_, rent, kids)
 
 
